@@ -1332,6 +1332,111 @@ def inline_constants(tree, shape):
     return done
 
 
+# ----------------------------------------------------------------------- N22 local records
+def scalar_replace_records(tree, shape):
+    """N22.  A new class that is only a record with a few methods (no bases, no decorators, only methods, an __init__ that
+    binds fields), instantiated once into a local of a function and used there only through `x.field` / `x.method(...)`
+    (the object never escapes), is dissolved: its fields become locals `x_field`, its constructor and methods are inlined.
+    `feed = _LookAhead(buffer); feed.advance(); feed.head` is the same program as the three locals it bundles."""
+    pinned_fns = set(shape["functions"])
+    pinned_classes = {q.split(".")[0] for q in pinned_fns if "." in q} | set(shape.get("names", ()))
+    classes = {}
+    for st in tree.body:
+        if isinstance(st, ast.ClassDef) and st.name not in pinned_classes and not st.bases and not st.decorator_list and not st.keywords:
+            body = _strip_doc(st.body)
+            if body and all(isinstance(m, ast.FunctionDef) and not m.decorator_list for m in body) and any(m.name == "__init__" for m in body):
+                classes[st.name] = {m.name: m for m in body}
+    if not classes:
+        return []
+    done = []
+    for q, host in functions_of(tree).items():
+        if q.split(".")[0] in classes:
+            continue
+        for owner, field, lst in _stmt_lists(host):
+            for i, st in enumerate(list(lst)):
+                if not (isinstance(st, ast.Assign) and len(st.targets) == 1 and isinstance(st.targets[0], ast.Name)
+                        and isinstance(st.value, ast.Call) and isinstance(st.value.func, ast.Name) and st.value.func.id in classes):
+                    continue
+                x, K = st.targets[0].id, st.value.func.id
+                meths = classes[K]
+                stores = [n for n in _walk_fn(host) if isinstance(n, ast.Name) and n.id == x and isinstance(n.ctx, (ast.Store, ast.Del))]
+                if len(stores) != 1:
+                    continue
+                parents = {}
+                for n in _walk_fn(host):
+                    for c in ast.iter_child_nodes(n):
+                        parents[id(c)] = n
+                loads = [n for n in _walk_fn(host) if isinstance(n, ast.Name) and n.id == x and isinstance(n.ctx, ast.Load)]
+                if not loads or not all(isinstance(parents.get(id(n)), ast.Attribute) and parents[id(n)].value is n for n in loads):
+                    continue  # the object escapes (passed on, returned, compared ...)
+                fields_ = {t.attr for m in meths.values() for t in ast.walk(m) if isinstance(t, ast.Attribute)
+                           and isinstance(t.value, ast.Name) and t.value.id == "self" and isinstance(t.ctx, ast.Store)}
+                used = {parents[id(n)].attr for n in loads}
+                if not used <= fields_ | set(meths):
+                    continue
+                taken = fn_locals(host) | {a.arg for a in ast.walk(host.args) if isinstance(a, ast.arg)}
+                if any(f"{x}_{f}" in taken for f in fields_):
+                    continue
+                # 1. methods at their call sites
+                helpers = AnyReceiver()
+                ok = True
+                for name, m in meths.items():
+                    if name == "__init__":
+                        continue
+                    h = Helper(m, K)
+                    if not (h.usable() and h.params and h.params[0] == "self"):
+                        ok = False
+                    forward_substitute(m, fn_locals(m) - set(h.params))
+                    h.body = _strip_doc(m.body)
+                    helpers[name] = h
+                if not ok:
+                    continue
+                inl = []
+                for _round in range(3):
+                    if not _inline_in_function(host, {}, helpers, inl):
+                        break
+                # every remaining load must be a field access now
+                loads = [n for n in _walk_fn(host) if isinstance(n, ast.Name) and n.id == x and isinstance(n.ctx, ast.Load)]
+                parents = {}
+                for n in _walk_fn(host):
+                    for c in ast.iter_child_nodes(n):
+                        parents[id(c)] = n
+                if not all(isinstance(parents.get(id(n)), ast.Attribute) and parents[id(n)].attr in fields_ for n in loads):
+                    continue
+                # 2. the constructor
+                hi = Helper(meths["__init__"], K)
+                if not hi.usable() or hi.is_gen:
+                    continue
+                fake = ast.Call(func=ast.Attribute(value=ast.Name(id=x, ctx=ast.Load()), attr="__init__", ctx=ast.Load()),
+                                args=st.value.args, keywords=st.value.keywords)
+                ast.copy_location(fake, st)
+                ast.fix_missing_locations(fake)
+                try:
+                    pro, body = hi.instantiate(fake, True, taken)
+                except NotInlineable:
+                    continue
+                if any(isinstance(b, ast.Return) and b.value is not None for s_ in body for b in _walk_stmt(s_)):
+                    continue
+                idx = lst.index(st)
+                lst[idx:idx + 1] = pro + body
+                # 3. fields are locals
+
+                class Fields(ast.NodeTransformer):
+                    def visit_Attribute(self, node):
+                        self.generic_visit(node)
+                        if isinstance(node.value, ast.Name) and node.value.id == x and node.attr in fields_:
+                            return ast.copy_location(ast.Name(id=f"{x}_{node.attr}", ctx=node.ctx), node)
+                        return node
+                Fields().visit(host)
+                ast.fix_missing_locations(host)
+                done.append(f"{q}:{x}={K}")
+    if done:
+        for name in list(classes):
+            if not any(isinstance(n, ast.Name) and n.id == name and isinstance(n.ctx, ast.Load) for n in ast.walk(tree)):
+                tree.body[:] = [s_ for s_ in tree.body if not (isinstance(s_, ast.ClassDef) and s_.name == name)]
+    return done
+
+
 # ----------------------------------------------------------------------- N15 function factories, N16 operator module
 _OPERATOR_BIN = {"add": ast.Add, "sub": ast.Sub, "mul": ast.Mult, "truediv": ast.Div, "floordiv": ast.FloorDiv, "mod": ast.Mod,
                  "pow": ast.Pow, "lshift": ast.LShift, "rshift": ast.RShift, "and_": ast.BitAnd, "or_": ast.BitOr, "xor": ast.BitXor,
@@ -2172,6 +2277,9 @@ def normalise(tree, modname, shape_all=None, keep=frozenset()):
         if oc.count:
             log["operator_calls"] = oc.count
             ast.fix_missing_locations(tree)
+    rec = scalar_replace_records(tree, shape)
+    if rec:
+        log["records"] = rec
     log["inlined"] = sorted(set(inline_helpers(tree, shape, keep)))
     if log["constants"] or log["inlined"]:
         _Recompile().visit(tree)
